@@ -113,7 +113,12 @@ fn conc_spec(prop: &'static str, profile: ConcProfile, rule: &'static str, probe
 fn hist_case(run_seed: u64, tier: Tier, profile: Profile) -> Case {
     let mut rng = Rng::new(run_seed);
     let size = if tier == Tier::Quick { QUICK } else { THOROUGH };
-    let plan = gen_hist(&mut rng, profile, size);
+    let mut plan = gen_hist(&mut rng, profile, size);
+    if matches!(profile, Profile::C01 | Profile::C10 | Profile::C11) && rng.fork("boundary").chance(1, 12) {
+        // WAL records around the first 32 KiB block boundary, kept in the log (1 MiB memtable) across
+        // the plan's clean reopens (reuse_log_files appends to such a log, or replays it)
+        crate::gen::boundary_prefix(&mut rng.fork("boundary-shape"), &mut plan);
+    }
     let est = (plan.op_count() as u32) * 80;
     let sched = gen_strategy(&mut rng.fork("sched"), est, false);
     Case { engine: Engine::Hist, run_seed, plan, sched, schedule: None, fault: None, params: BTreeMap::new(), image: None, max_steps: None, log_plan: None, lock_plan: None, corrupt: None }
